@@ -28,9 +28,12 @@ func runC15(c *CaseCtx) {
 	u := defaultUniverse(r, 2, 5+r.Intn(8), kind != "kv")
 	run := NewRunner(c, cfg, u, class)
 	c.Log("cfg %s buckets=%v kind=%s", cfg, u.Buckets, kind)
-	// an injector leaves records of failed transactions in the log (a write error after the first records)
+	// an injector leaves records of failed transactions in the log (a write error after the first records).
+	// Sync errors are not injected here: a failed sync after the write of the commit record leaves the
+	// outcome in doubt (the transaction is invisible in the process and visible after a reopen, which
+	// C12 allows and decides); this check needs to know the contents before each Merge for certain.
 	mon := NewFSMon(run.Dir)
-	inj := &injector{root: run.Dir, rngPick: r.Intn}
+	inj := &injector{root: run.Dir, rngPick: r.Intn, noSync: true}
 	mon.OnEvent = inj.onEvent
 	mon.Install()
 	defer mon.Uninstall()
@@ -94,12 +97,17 @@ func runC15(c *CaseCtx) {
 				out := run.Tx(t, false)
 				inj.armed = false
 				run.WriteDead = false
+				if inj.fired != nil {
+					c.Log("  injected %s error at file operation #%d of that commit (%s, partial=%v): Commit returned %v", inj.fired.Op, inj.n, inj.fired.Path, inj.partial && inj.fired.Op == "write", out.Err)
+				}
 				if inj.fired == nil {
 					run.FaultSinceOpen = false
 				}
 				if inj.fired != nil && inj.fired.Op != "write" && inj.fired.Op != "sync" {
 					// a failed rotation may leave the handle without a usable active segment: reopen
-					run.M = m0
+					if out.Err != nil {
+						run.M = m0
+					}
 					if !run.Reopen() {
 						return false
 					}
